@@ -61,10 +61,10 @@ func safeRun(p *Prop, c string) string {
 
 var caseTimeout = 10 * time.Second
 
-// memWatch ends the process when the code under test allocates without bound (4 GB of live heap, VERIF_MEMLIMIT_MB
+// memWatch ends the process when the code under test allocates without bound (12 GB of live heap, VERIF_MEMLIMIT_MB
 // overrides): the run is then localised to the case like any other crash, instead of taking the machine down.
 func memWatch() {
-	limit := uint64(4 << 30)
+	limit := uint64(12 << 30)
 	if v, err := strconv.Atoi(os.Getenv("VERIF_MEMLIMIT_MB")); err == nil && v > 0 {
 		limit = uint64(v) << 20
 	}
